@@ -7,7 +7,7 @@ from .check_core import mc_states, LABS
 from .runner import Check
 
 
-IOLABS = ["int", "zero", "int_rev", "neg", "big", "str", "uni", "cross0"]
+IOLABS = ["int", "zero", "int_rev", "neg", "big", "str", "uni", "cross0", "dstr", "dstr"]
 
 
 def _decorate(g, L, known, rng, lines, grid):
